@@ -24,6 +24,9 @@ def parseRound (s : String) : Option (Round × Option Nat) :=
     -- read is a failed handler, whatever the kind
     let digits := String.ofList (fl.toList.takeWhile Char.isDigit)
     let fail ← if fl = "n" then some none else if pan.isSome then some pan else (digits.toNat?).map some
+    -- `s@<h>` / `x@<h>`: a retry request for height h is handled (by the retry message handler that shares the chain
+    -- config with the listener) right before this round; it must not influence the scan
+    let st := (st.splitOn "@").headD st
     let ok ← if st = "s" then some true else if st = "x" then some false else none
     let crash ← match rest with
       | [] => some (pan.map (· + 1))
